@@ -9,11 +9,13 @@ stop_words = {
     "Decimal",
     "Enum",
     "False",
+    "ForwardRef",
     "Meta",
     "None",
     "Optional",
     "QName",
     "True",
+    "Tuple",
     "Union",
     "and",
     "as",
@@ -44,6 +46,7 @@ stop_words = {
     "is",
     "lambda",
     "list",
+    "mro",
     "nonlocal",
     "not",
     "object",
@@ -54,6 +57,7 @@ stop_words = {
     "self",
     "str",
     "try",
+    "tuple",
     "type",
     "validate",
     "while",
